@@ -97,13 +97,36 @@ func runC08(ctx *core.Ctx) {
 			ys = c
 		}
 	}
+	// the running line counts: the local struct whose fields are incremented next to the
+	// prefixed-line appends (whatever it is called)
+	var countAl *ssa.Alloc
+	g.Instrs(func(i ssa.Instruction) {
+		b, ok := i.(*ssa.BinOp)
+		if !ok || b.Op != token.ADD {
+			return
+		}
+		if pfx, ok := ssax.ConstString(b.X); !ok || (pfx != "-" && pfx != "+" && pfx != " ") {
+			return
+		}
+		for _, ins := range b.Block().Instrs {
+			if st, ok := ins.(*ssa.Store); ok {
+				if fa, ok := st.Addr.(*ssa.FieldAddr); ok {
+					if al, ok := fa.X.(*ssa.Alloc); ok {
+						if add, ok := st.Val.(*ssa.BinOp); ok && add.Op == token.ADD && isConstIntV(1)(add.Y) {
+							countAl = al
+						}
+					}
+				}
+			}
+		}
+	})
 	countField := func(st *ssa.Store) string {
 		fa, ok := st.Addr.(*ssa.FieldAddr)
 		if !ok {
 			return ""
 		}
 		al, ok := fa.X.(*ssa.Alloc)
-		if !ok || al.Comment != "count" {
+		if !ok || al != countAl || countAl == nil {
 			return ""
 		}
 		return ssax.FieldOf(fa).Name()
@@ -154,19 +177,26 @@ func runC08(ctx *core.Ctx) {
 		}
 		ops := variadicElems(fp.Call.Args[2])
 		names := []string{}
+		starts := map[*ssa.Alloc]bool{}
 		for _, o := range ops {
 			o = ssax.Strip(o)
 			if u, ok := o.(*ssa.UnOp); ok {
 				if fa, ok := u.X.(*ssa.FieldAddr); ok {
 					if al, ok := fa.X.(*ssa.Alloc); ok {
-						names = append(names, al.Comment+"."+ssax.FieldOf(fa).Name())
+						role := "start"
+						if al == countAl {
+							role = "count"
+						}
+						starts[al] = true
+						names = append(names, role+"."+ssax.FieldOf(fa).Name())
 						continue
 					}
 				}
 			}
 			names = append(names, "?")
 		}
-		ok := f == "@@ -%d,%d +%d,%d @@\n" && strings.Join(names, ",") == "chunk.x,count.x,chunk.y,count.y"
+		delete(starts, countAl)
+		ok := f == "@@ -%d,%d +%d,%d @@\n" && strings.Join(names, ",") == "start.x,count.x,start.y,count.y" && len(starts) == 1
 		ctx.Check(ok, "F3", "diff.Diff#hunk-header", fp.Pos(), "hunk header %q prints %v", f, names)
 		// resets after emission: stores of 0 to count.x and count.y dominated by the header write, and ctext re-sliced to [:0]
 		reset := map[string]bool{}
@@ -177,6 +207,10 @@ func runC08(ctx *core.Ctx) {
 			}
 			if fld := countField(st); fld != "" && isConstIntV(0)(st.Val) && st.Block() == fp.Block() || (fld != "" && isConstIntV(0)(st.Val) && g.DomBlock(fp.Block().Index, st.Block().Index)) {
 				reset[fld] = true
+			}
+			// count = pair{}: the whole struct is zeroed
+			if c, isC := st.Val.(*ssa.Const); isC && c.Value == nil && st.Addr == ssa.Value(countAl) && countAl != nil {
+				reset["x"], reset["y"] = true, true
 			}
 		})
 		ctextReset := false
